@@ -280,7 +280,7 @@ def _absorb(res, space, hist, op, ctx, si):
     for oracle, msg, known in ctx.violations:
         if known:
             if known not in res.known:
-                res.known[known] = (msg, {"space": space.name, "history": [codec.show(o) for o in hist]})
+                res.known[known] = (msg, {"oracle": oracle, "space_index": si, "space": space.name, "history": hist})
             continue
         res.violations.append({"oracle": oracle, "message": msg, "space_index": si, "space": space.name, "history": hist})
 
